@@ -533,6 +533,8 @@ def facebook_model(ctx, rule):
         for qd in FB_QUERIES:
             urls.append(host + qd)
     urls += ["https://www.facebook.com", "https://www.facebook.com/", "https://lemonde.fr/some.handle/posts/1", "not a url"]
+    # a doubled slash in front of a reserved route word / of a handle (the first is an open finding: the record's url drops the slash and is then a bare route)
+    urls += ["https://www.facebook.com//people", "https://www.facebook.com//some.handle"]
     n = 0
     nrec = 0
     for u in urls:
